@@ -144,6 +144,18 @@ def d5_writer_reader_tokens(chk, F):
     chk.expect(any(l.endswith("<impl [T]>::iter") or "into_iter" in l for l in srcs) and any("next" in l for l in srcs),
                "C11.D5-syntax-agreement", "write|all names", f"{w.file}:{w.line}",
                "the written names do not come from an iteration over ingredient.names", sample=f"{w.file}: names come from ingredient.names.iter()")
+    # what is printed is the stored name itself: no call that could alter it (trim, to_lowercase, replace ..) in the placeholder's lineage
+    PASS = ("Iterator>::next", "<impl [T]>::iter", "IntoIterator>::into_iter", "Deref>::deref", "Option::<T>::unwrap", "<impl [T]>::first", "<impl [T]>::split_first",
+            "AsRef<T>>::as_ref", "Option::<T>::expect", "Iterator::next")
+    for g, st in cat + nam:
+        for tk in st["tokens"]:
+            if tk[0] != "arg":
+                continue
+            altered = sorted({l[5:].rsplit("::", 1)[-1] for l in leaves(tk[1]) if l.startswith("call:") and not l[5:].endswith(PASS)})
+            chk.expect(not altered, "C11.D5-syntax-agreement", f"write|verbatim {field_of(tk[1])}", f"{w.file}:{st['line']}",
+                       f"write() prints a {field_of(tk[1])} name after passing it through {altered}: parse() keeps category names verbatim and trims ingredient names itself, "
+                       "so a rewritten name no longer parses back to the same configuration (`[ dairy ]`)",
+                       sample=f"{w.file}:{st['line']}: the stored {field_of(tk[1])} name is printed as it is")
     okl = len(lits) >= 2 and all(fmtq.render(st["tokens"], lambda e: "") == "\n" for _, st in lits)
     chk.expect(okl, "C11.D5-syntax-agreement", "write|line ends", f"{w.file}:{w.line}",
                f"ingredient lines and categories must end with a line feed; write() emits the literals {[fmtq.render(st['tokens'], lambda e: '') for _, st in lits]}",
